@@ -100,6 +100,12 @@ class GreaterThanOrEqual(TypeSafeBinaryOperation):
 
 
 class And(TypeSafeBinaryOperation):
+    def eval_values(self, value_1, value_2):
+        # three-valued logic: false AND null is false
+        if value_1 is False or value_2 is False:
+            return False
+        return super().eval_values(value_1, value_2)
+
     def unsafe_operation(self, value_1, value_2):
         return value_1 and value_2
 
@@ -108,6 +114,12 @@ class And(TypeSafeBinaryOperation):
 
 
 class Or(TypeSafeBinaryOperation):
+    def eval_values(self, value_1, value_2):
+        # three-valued logic: true OR null is true
+        if value_1 is True or value_2 is True:
+            return True
+        return super().eval_values(value_1, value_2)
+
     def unsafe_operation(self, value_1, value_2):
         return value_1 or value_2
 
